@@ -40,6 +40,22 @@ def must_be_equal(e1, e2):
     return (e1 == e2) and (e2 == e1)
 
 
+def edited_vs_built(m, typed, pattern_too, v):
+    """an element used once, then edited in place, vs an independently built element with the same configuration"""
+    from vf.common import Element, Object, Property, Integer, accepts
+
+    mk1 = (lambda **kw: Object.inline("E", **kw)) if typed else (lambda **kw: Element(**kw))
+    e1 = mk1(properties={}, patternProperties={"^z": Integer()}) if pattern_too else mk1(properties={})
+    accepts(e1, {"a": "x"})
+    accepts(e1, {})
+    e1.properties["a"] = Property(Integer(minimum=m), required=True)
+    if pattern_too:
+        e1.patternProperties["^c"] = Integer(maximum=m)
+    pats = {"^z": Integer(), "^c": Integer(maximum=m)} if pattern_too else None
+    e2 = mk1(properties={"a": Property(Integer(minimum=m), required=True)}, patternProperties=pats) if pattern_too else mk1(properties={"a": Property(Integer(minimum=m), required=True)})
+    return congruent(e1, e2, v) and (e1 == e2)
+
+
 def rebuild_equal(make):
     a = make()
     b = make()
@@ -203,6 +219,8 @@ S1 = {"type": "object", "title": "Item", "properties": {"child": child}, "requir
 S2 = {"type": "object", "title": "Item", "properties": {"child": child}, "required": (["child"] if r2 else [])}
 return dedupe_ok(S1, S2, v)
 """, timeout=120, group="users", covers="two same-titled object schemas sharing one (dereferenced) child schema object, differing only in required"))
+    hs.append(mk("c17_edited_vs_built", f"m: int, typed: bool, pattern_too: bool, v: {DV}", DPRE, "return edited_vs_built(m, typed, pattern_too, v)", timeout=200, group="users",
+                 covers="element / model class with initially EMPTY properties, validated, then edited in place (properties item, patternProperties item) vs an independently built equal one"))
     hs.append(mk("c17_definitions_min", f"m: int, n: int, v: {DV}", DPRE, """
 def make():
     return Element(properties={"a": Property(Integer(minimum=m))}, additionalProperties=Number(minimum=m))
